@@ -283,6 +283,12 @@ func (r *deliveryRule) OnInstr(e *Engine, st *State, fc *FrameCtx, in ssa.Instru
 
 func (r *deliveryRule) isPublishCtx(c string) bool {
 	for _, x := range r.ctxCanons {
+		if strings.HasPrefix(x, "v:") {
+			if c == x {
+				return true
+			}
+			continue
+		}
 		if strings.HasPrefix(c, x) {
 			return true
 		}
@@ -363,8 +369,13 @@ func (r *deliveryRule) OnBranch(e *Engine, st *State, fc *FrameCtx, in *ssa.If, 
 	}
 	// emptiness test of the retirement list after the loop: its outcome is fixed by
 	// whether this publish queued anything
-	if bo, ok := cond.(*ssa.BinOp); ok && fc.fn == r.R.PublishFn && !r.loops.body[r.header][in.Block()] {
-		if nonEmptyOnTrue, lst, ok := lenTest(bo); ok && typeName(elemType(lst.Type())) == r.R.RegName() && derivesFromAppend(lst, 0, map[ssa.Value]bool{}) {
+	if bo, ok := cond.(*ssa.BinOp); ok && !fc.InGoroutine() && st.RootBlock() != nil && !r.loops.body[r.header][st.RootBlock()] {
+		nonEmptyOnTrue, lst, ok := lenTest(bo)
+		if ok {
+			// inside a helper the list is a parameter: look at the caller's argument
+			lst, _ = e.ArgValue(fc, lst)
+		}
+		if ok && typeName(elemType(lst.Type())) == r.R.RegName() && derivesFromAppend(lst, 0, map[ssa.Value]bool{}) {
 			nonEmpty := val == nonEmptyOnTrue
 			if (s.A == 'y') != nonEmpty {
 				st.Kill()
@@ -542,7 +553,7 @@ func runDelivery(c *Ctx, p *Prog, R *BusRoles, ruleOf func(construct string) str
 		fnm := fnName(R.PublishFn)
 		r.eventCanon = "param:" + fnm + "." + R.PublishFn.Params[2].Name()
 		cn := R.PublishFn.Params[1].Name()
-		r.ctxCanons = []string{"param:" + fnm + "." + cn, "cell:" + fnm + "." + cn + "@"}
+		r.ctxCanons = append([]string{"param:" + fnm + "." + cn, "cell:" + fnm + "." + cn + "@"}, publishCtxPhiCanons(R.PublishFn)...)
 	} else {
 		c.Unresolved("DELIVERY", "UNRESOLVED-ANCHOR/PublishContext-signature", "PublishContext no longer has the (bus, ctx, event) signature")
 		return
